@@ -54,7 +54,9 @@ func main() {
 	fset := token.NewFileSet()
 	pkgs, err := parser.ParseDir(fset, filepath.Join(repo, "engine"), func(fi os.FileInfo) bool {
 		n := fi.Name()
-		return !strings.HasSuffix(n, "_test.go") && !strings.HasPrefix(n, "verif_")
+		// the hook bodies compiled without the build tag (verif_nosync.go) are part of the package as shipped;
+		// the tagged accessor/sync files are not
+		return !strings.HasSuffix(n, "_test.go") && (!strings.HasPrefix(n, "verif_") || n == "verif_nosync.go")
 	}, parser.ParseComments)
 	if err != nil {
 		fail(err)
@@ -74,17 +76,6 @@ func main() {
 			}
 		}
 	}
-	// stub for the hook functions so the package type-checks without the verif_* files
-	stub, err := parser.ParseFile(fset, "verif_stub.go", `package engine
-import "time"
-func verifSync(point string, a, b int) {}
-func verifDeadline(start, end time.Time, depth int) {}
-func verifLazyCut(pos *Position, cheap, alpha, beta int) {}
-`, 0)
-	if err != nil {
-		fail(err)
-	}
-	files = append(files, stub)
 	conf := types.Config{Importer: importer.ForCompiler(fset, "source", nil)}
 	info := &types.Info{
 		Defs:       map[*ast.Ident]types.Object{},
